@@ -72,6 +72,12 @@ T = [
  ('C14-m3', '/tmp/mut-C14/mutants/3', 'C14', [('demo_test.rs', 'src/tests/sim_tests/repeat_sim_tests.rs', M, 'c14_demo_repeat_unshift_on_other_physical_key')]),
  ('C14-m4', '/tmp/mut-C14/mutants/4', 'C14', [('demo_test.rs', 'src/tests/sim_tests/repeat_sim_tests.rs', M, 'c14_demo_repeat_override_output_of_key_first_seen_as_override_output')]),
  ('C14-m5', '/tmp/mut-C14/mutants/5', 'C14', [('demo_test.rs', 'src/tests/sim_tests/repeat_sim_tests.rs', M, 'c14_demo_repeat_key_pressed_on_lower_held_layer_shadowed_by_upper')]),
+ # ---- round 4: the parser-side switch compiler (after C10-A6)
+ ('C10-r4m1', '/tmp/mut-R4/mutants/1', 'C10', [('demo_test.rs', 'src/tests/sim_tests/switch_sim_tests.rs', M, 'r4m1_')]),
+ ('C10-r4m2', '/tmp/mut-R4/mutants/2', 'C10', [('demo_test.rs', 'src/tests/sim_tests/switch_sim_tests.rs', M, 'r4m2_')]),
+ ('C10-r4m3', '/tmp/mut-R4/mutants/3', 'C10', [('demo_test.rs', 'src/tests/sim_tests/switch_sim_tests.rs', M, 'r4m3_')]),
+ ('C10-r4m4', '/tmp/mut-R4/mutants/4', 'C10', [('demo_test.rs', 'src/tests/sim_tests/switch_sim_tests.rs', M, 'r4m4_')]),
+ ('C10-r4m5', '/tmp/mut-R4/mutants/5', 'C10', [('demo_test.rs', 'src/tests/sim_tests/switch_sim_tests.rs', M, 'r4m5_')]),
 ]
 ENV = dict(os.environ, CARGO_TARGET_DIR=TGT, CARGO_NET_OFFLINE='true')
 
